@@ -2587,7 +2587,24 @@ class TensorDict(TensorDictBase):
                     ignore_lock=True,
                 )
             is_diff = dest[idx].tolist() != value.tolist()
-            if is_diff:
+            if (
+                is_diff
+                and not dest.batch_size
+                and (
+                    idx is Ellipsis
+                    or (isinstance(idx, tuple) and all(i is Ellipsis for i in idx))
+                )
+            ):
+                # td[()] = value / td[...] = value on a value without batch dims: it is
+                # replaced as a whole (it has no position to index)
+                self._set_str(
+                    key,
+                    value,
+                    validated=True,
+                    inplace=False,
+                    ignore_lock=True,
+                )
+            elif is_diff:
                 dest_val = dest.maybe_to_stack()
                 dest_val[idx] = value
                 if dest_val is not dest:
